@@ -2,14 +2,18 @@ import os
 from engine import Query
 META = {
  'functions': ['Digit::StringToNumber / stringToNumber (Digit.hpp:204-540)', 'Digit::parseExponent (Digit.hpp:674-723)',
-               'call sites of Digit::powerOfPositiveTen / powerOfNegativeTen (contract stubs: arguments recorded, result arbitrary)'],
+               'call sites of Digit::powerOfPositiveTen / powerOfNegativeTen (contract stubs: arguments recorded, result arbitrary)',
+               'Digit::powerOfNegativeTen (Digit.hpp:544-631) un-stubbed with the real BigInt<u64,256> multiply / shift / FindLastBit, on rounding-carry windows'],
  'bounds': 'scan: every numeral of concrete length L <= 6 (quick) / 8 (thorough) over [0-9+-.eE] plus one arbitrary unit (not x/X), 3 unit widths: '
            'rejection, consumed length, integer results, +-0, and the (mantissa, decimal exponent) pair handed to the power kernels (exact rational '
            'equality with the reference), out-of-range numerals (>= 2^1024) rejected or infinite. int: 19/20/21-digit integer numerals with the '
            'leading 14-16 digits pinned to windows around 2^63, 2^64, 10^20-1 and 10^20, trailing 5 digits symbolic, with and without minus sign. '
-           'exp: 1e[-]d..d with 9, 10, 11 symbolic exponent digits (leading zeros allowed).',
- 'outside': 'the power kernels themselves (C09 b: big-integer multiply and rounding; not attempted -- the value of a Real result is checked only up to '
-            'the kernel arguments and the sign bit), numerals longer than L, mantissas longer than 19 digits (window cut), the 0x.. hexadecimal spelling, '
+           'exp: 1e[-]d..d with 9, 10, 11 symbolic exponent digits (leading zeros allowed). kernel: powerOfNegativeTen(n, E) within one unit in the last place of n / 10^E '
+           '(exact 128-bit integer oracle) for every n within 2^15 of 2^J * 10^E - the mantissas whose quotient straddles a power of two, where rounding to 53 bits carries into the exponent - '
+           'E = 16, J = 1, 10 (quick); E in {1,4,8,12,16,19} x J in {0, 1, mid, max} (thorough).',
+ 'outside': 'the power kernels outside the listed windows: the positive kernel, decimal exponents above 19 (more than one big-integer multiply), mantissas away from the '
+            'power-of-two windows (fully symbolic 64-bit mantissa: no verdict in 900 s with kissat, sat, cvc5 bv-as-int, z3) -- there the value of a Real result is checked only up to '
+            'the kernel arguments and the sign bit, numerals longer than L, mantissas longer than 19 digits (window cut), the 0x.. hexadecimal spelling, '
             'fully symbolic 19-21 digit numerals (Horner over 19 symbolic digits: no verdict in 200 s with sat and cvc5 bv-as-int).',
  'assumptions': ['reference grammar = the dialect pinned by Tests/DigitTest.hpp: [+-]?(D+(.D*)? | .D+)([eE][+-]?D+)?, leading zeros / second dot / empty exponent rejected',
                  'rejecting numerals below 10^-324 is tolerated (documented range rejection); everything at or above 2^1024 must be rejected or infinite',
@@ -78,8 +82,13 @@ def queries(tier):
                                 stubs=STUBS, cflags=PRIV, kf_excl=ex, timeout=600, mem_gb=8))
         qs.append(Query('exp/%s/ne10/sign0/kf-wrap' % ch, 'C09_scan.cpp', 'h_exp', kf({'NE': 10, 'ESIGN': 0, 'CHAR': ch}, [], 'C09-exponent-wrap'),
                         bounds={'stringToNumber|parseExponent': 14, 'h_exp': 11, 'vf_buf.*': 14}, stubs=STUBS, cflags=PRIV, kf_only=ko('C09-exponent-wrap'), timeout=600, mem_gb=8))
-    # (b) the negative power-of-ten kernel alone: every 64-bit mantissa, decimal exponent concrete per query
-    KB = {'pow10_': 21, 'bitlen': 66, 'powerOfNegativeTen': 3, 'FindLastBit|ShiftLeft|ShiftRight|Multiply|.*BigInt.*|operator.*': 6}
-    for e in ((1, 16) if tier == 'quick' else tuple(range(1, 20))):
-        qs.append(Query('kernel/p10neg/E%d' % e, 'C09_kernel.cpp', 'h_p10neg', {'KE': e}, bounds=KB, default_unwind=6, cflags=PRIV, backend='kissat', timeout=900, mem_gb=8))
+    # (b) the negative power-of-ten kernel alone on the windows where rounding to 53 bits carries into the exponent: mantissas within 2^15 of 2^J * 10^E
+    KB = {'bitlen': 66, 'powerOfNegativeTen': 3, 'FindLastBit|ShiftLeft|ShiftRight|Multiply|.*BigInt.*|operator.*': 6}
+    import math
+    for e in ((16,) if tier == 'quick' else (1, 4, 8, 12, 16, 19)):
+        jmax = int(math.floor(math.log2((2**64 - 65536) / 10**e)))
+        js = sorted(set([0, 1, jmax // 2, jmax])) if tier != 'quick' else [1, 10]
+        for j in js:
+            if (10**e << j) >= 2**64 - 65536 or (10**e << j) < 65536: continue
+            qs.append(Query('kernel/p10neg/E%d/J%d' % (e, j), 'C09_kernel.cpp', 'h_p10neg', {'KE': e, 'KJ': j}, bounds=KB, default_unwind=6, cflags=PRIV, backend='sat', timeout=600, mem_gb=8))
     return qs
